@@ -16,6 +16,7 @@ real code    : the property predicates themselves on every real output: number f
                total, Blowout.disp_phases vs Blowout.mass_flux, first row of bent_plume_model.Model.q.
 """
 import io
+import os
 import math
 import warnings
 import contextlib
@@ -589,11 +590,106 @@ def blowout_case(ctx, r, profiles, i, force=None, stratum=None, preset=None):
         b = blowout.Blowout(z0=z0, d0=d0, substance=sub, q_oil=q_oil, gor=gor, num_gas_elements=ng, num_oil_elements=no,
                             water=prf, current=np.array([0.05, 0., 0.]), ca=ca, size_distribution=sd)
         m, xi, K = b.oil.equilibrium(b.mass_flux, b.Tj, b.P0)
+    blowout_snapshot(case, b, m, xi)
+    return case
+
+
+def blowout_snapshot(case, b, m, xi):
+    """what the predicates read of a Blowout object in its present state (m, xi: an independent re-flash of b.mass_flux)"""
     case.update({'b': b, 'm': m, 'xi': xi, 'mass_flux': fl(b.mass_flux),
                  'amb': [float(b.T0), float(b.S0), float(b.P0)], 'Tj': float(b.Tj), 'M': fl(b.oil.M),
                  'd_gas': fl(b.d_gas), 'vf_gas': fl(b.vf_gas), 'd_liq': fl(b.d_liq), 'vf_liq': fl(b.vf_liq),
                  'm0': [fl(p.m0) for p in b.disp_phases], 'nb0': [float(p.nb0) for p in b.disp_phases]})
     return case
+
+
+def blowout_history(ctx, r, profiles, worst):
+    """ONE Blowout object taken through update_q_oil / update_gor / update_substance / update_release_depth in random
+    order; after each change it is re-initialised the way simulate() does (`_update()`), judged with the usual
+    predicates against the release flux of THAT state (independent get_oil call + re-flash), and compared with a
+    fresh Blowout built directly with the same parameters.  Returns the list of judged state dicts."""
+    from tamoc import blowout, dbm_utilities
+    comp, ms = gen_dead_oil(r, nmax=6)
+    ip = r.randrange(len(profiles))
+    prf = profiles[ip][0]
+    st = {'z0': r.uniform(50., 400.), 'd0': r.uniform(0.05, 0.3), 'composition': comp, 'masses': ms.tolist(),
+          'q_oil': 10 ** r.uniform(3, 5), 'gor': 10 ** r.uniform(2.3, 3.3), 'num_gas_elements': r.randint(1, 8),
+          'num_oil_elements': r.randint(1, 8), 'ca': r.choice([[], 'all'])}
+
+    def fresh(stt):
+        with silence(), np.errstate(all='ignore'):
+            return blowout.Blowout(z0=stt['z0'], d0=stt['d0'], substance={'composition': list(stt['composition']), 'masses': np.array(stt['masses'])},
+                                   q_oil=stt['q_oil'], gor=stt['gor'], num_gas_elements=stt['num_gas_elements'],
+                                   num_oil_elements=stt['num_oil_elements'], water=prf, current=np.array([0.05, 0., 0.]), ca=stt['ca'])
+    b = fresh(st)
+    ops = ['q_oil', 'gor', 'substance', 'depth']
+    r.shuffle(ops)
+    out = []
+    hist = []
+    for op in ops:
+        if op == 'q_oil':
+            st['q_oil'] = 2. * st['q_oil']
+            b.update_q_oil(st['q_oil'])
+        elif op == 'gor':
+            st['gor'] = st['gor'] * r.choice([0.4, 2.5]) if st['gor'] * 2.5 <= 5000. else st['gor'] * 0.4
+            b.update_gor(st['gor'])
+        elif op == 'substance':
+            comp2, ms2 = gen_dead_oil(r, nmax=6)
+            st['composition'], st['masses'] = comp2, ms2.tolist()
+            b.update_substance({'composition': list(comp2), 'masses': np.array(ms2)})
+        else:
+            st['z0'] = r.uniform(50., 400.)
+            b.update_release_depth(st['z0'])
+        hist.append(op)
+        try:
+            with silence(), np.errstate(all='ignore'):
+                if not b.update:
+                    b._update()                      # what simulate() does first
+        except Exception as e:
+            import traceback
+            tb = traceback.extract_tb(e.__traceback__)
+            inner = [f for f in tb if os.sep + 'tamoc' + os.sep in f.filename]
+            site = '%s:%s' % (os.path.basename(inner[-1].filename), inner[-1].name) if inner else '?'
+            ctx.violation('blowout-history-update-raised:%s@%s' % (type(e).__name__, site),
+                          're-initialising ONE Blowout object after %s raised %s: %s' % (' + '.join(hist), type(e).__name__, str(e)[:200]),
+                          dict(st, history=list(hist), traceback=traceback.format_exc()[-3000:]))
+            break
+        with silence(), np.errstate(all='ignore'):
+            ca_list = ['nitrogen', 'oxygen', 'argon', 'carbon_dioxide'] if st['ca'] == 'all' else []
+            oil_i, mflux_i = dbm_utilities.get_oil({'composition': list(st['composition']), 'masses': np.array(st['masses'])},
+                                                   st['q_oil'], st['gor'], ca_list, 1)
+        case = dict(st, kind='blowout', mode='psm', profile=profiles[ip][1], forced=None, placed=None, history=list(hist))
+        if not np.all(np.isfinite(mflux_i)):
+            ctx.count('blowout history: state skipped, get_oil returned non-finite fluxes (C12)')
+            continue
+        # the release flux of THIS state, independently of the object
+        if not (len(mflux_i) == len(b.mass_flux) and close(fl(b.mass_flux), fl(mflux_i), TOL['identity'])):
+            ctx.violation('blowout-history-mass-flux', 'after %s the Blowout carries a mass_flux that is not the one of its present parameters'
+                          % '+'.join(hist), dict(case, mass_flux_object=fl(b.mass_flux), mass_flux_fresh_get_oil=fl(mflux_i)))
+            break
+        with np.errstate(all='ignore'):
+            m, xi, K = b.oil.equilibrium(np.asarray(mflux_i), b.Tj, b.P0)
+        blowout_snapshot(case, b, m, xi)
+        nv = len(ctx.violations)
+        blowout_predicates(ctx, case, worst)
+        if len(ctx.violations) > nv:
+            ctx.violations[-1]['key'] += '-after-update'
+            ctx.violations[-1]['what'] += ' (ONE Blowout object after %s, re-initialised with _update())' % ' + '.join(hist)
+            ctx.violations[-1]['case'] = dict(ctx.violations[-1]['case'], history=list(hist))
+            break
+        # equality with a fresh Blowout built directly with these parameters
+        f = fresh(st)
+        same = (len(f.disp_phases) == len(b.disp_phases)
+                and all(close(float(p.nb0), float(q.nb0), TOL['identity']) and close(fl(p.m0), fl(q.m0), TOL['identity'])
+                        for p, q in zip(f.disp_phases, b.disp_phases)))
+        if not same:
+            ctx.violation('blowout-history-differs-from-fresh', 'after %s the particle list of the updated Blowout differs from the one of a fresh '
+                          'Blowout with the same parameters' % '+'.join(hist),
+                          dict({k: case[k] for k in ('z0', 'd0', 'composition', 'masses', 'q_oil', 'gor', 'num_gas_elements', 'num_oil_elements', 'ca', 'history')},
+                               nb0_updated=[float(p.nb0) for p in b.disp_phases], nb0_fresh=[float(p.nb0) for p in f.disp_phases]))
+            break
+        out.append(case)
+    return out
 
 
 def void_fraction(oil, mflux, prf, z):
@@ -1029,6 +1125,14 @@ def _run(ctx, lean_ok):
             blowout_predicates(ctx, c, worst)
             if all(math.isfinite(x) for x in c['nb0']):
                 add(c, [blowout_line(c)], lambda c, o: blowout_compare(c, o[0], worst))
+    # ONE Blowout object through a history of update_* calls
+    hist_states = []
+    for rep_ in range(ctx.n(1, 10)):
+        hs = blowout_history(ctx, r, profiles, worst)
+        for c in hs:
+            ctx.count('blowout history state judged after ' + c['history'][-1])
+            ctx.nontrivial.add(('blowout-history', tuple(c['history']), float('%.6g' % c['z0']), float('%.6g' % c['gor'])))
+        hist_states += hs
     if blows:
         c = blows[-1]
         ctx.sample({k: c[k] for k in ('kind', 'mode', 'z0', 'd0', 'composition', 'masses', 'q_oil', 'gor', 'mass_flux', 'd_gas',
@@ -1055,7 +1159,7 @@ def _run(ctx, lean_ok):
         ctx.sample({'kind': c['kind'], 'source': c['source'], 'z0': c['z0'], 'row[0:14]': c['row'][:14],
                     'particles': c['rec']['parts'] if c['rec'] else None})
 
-    ctx.evaluations = len(ics) + len(bins) + len(blows) + len(rows)
+    ctx.evaluations = len(ics) + len(bins) + len(blows) + len(rows) + len(hist_states)
 
     # ---- coverage floors (obligations): every clause of the property is exercised in every run ------------------
     def floor(name, have, need):
@@ -1074,6 +1178,8 @@ def _run(ctx, lean_ok):
     floor('blowouts judged with a user-supplied size distribution', sum(1 for c in okb if c['mode'] == 'user'), ctx.n(2, 20))
     floor('blowouts judged with free gas at a void fraction in (0, 1 %) at the release (just above the bubble point, built-in size model)',
           sum(1 for c in placed if 0. < c['placed']['void'] < 0.01 and all(math.isfinite(x) for x in c['nb0'])), ctx.n(3, 20))
+    floor('states of ONE Blowout object judged after update_q_oil / update_gor / update_substance / update_release_depth',
+          len(hist_states), ctx.n(3, 30))
     floor('first-element rows judged (particle lists)', sum(1 for c in rows if c.get('source') == 'particle list' and c['rec']), ctx.n(6, 80))
     floor('first-element rows judged (blowouts)', sum(1 for c in rows if c.get('source') == 'blowout' and c['rec']), ctx.n(2, 20))
 
